@@ -69,6 +69,44 @@ void run_case(char *rest)
 			else putchar('-');
 			if (o) json_object_put(o);
 			break; }
+		case 'S': {
+			/* stream of concatenated documents fed in chunks: S<hex>[,cut,cut,...] */
+			char *comma = strchr(tokp, ',');
+			size_t n, base = 0; unsigned char *data;
+			int stop = 0, anydoc = 0; char last[64] = "none";
+			if (dead) { printf("skipped"); break; }
+			if (comma) *comma = 0;
+			data = unhex(tokp + 1, &n);
+			printf("docs=");
+			while (!stop) {
+				size_t cut = n, off = base; int fin = 0, iters = 0;
+				if (comma) { char *e; cut = strtoul(comma + 1, &e, 10); comma = (*e == ',') ? e : NULL; if (!comma && cut != n) { /* last explicit cut */ comma = (char *)""; } }
+				else stop = 2;   /* this is the final chunk (up to n) */
+				if (comma && comma[0] == 0) comma = NULL;
+				while (!fin && stop != 1) {
+					/* exact-size copy so ASan sees reads beyond the chunk */
+					size_t len = cut - off; unsigned char *c = (unsigned char *)malloc(len ? len : 1);
+					struct json_object *o; enum json_tokener_error e; size_t end;
+					memcpy(c, data + off, len);
+					o = json_tokener_parse_ex(tok, (char *)c, (int)len);
+					free(c);
+					e = json_tokener_get_error(tok); end = json_tokener_get_parse_end(tok);
+					iters++;
+					if (e == json_tokener_success) {
+						jv_dump(o); printf("@%zu;", off + end); anydoc = 1;
+						if (o) json_object_put(o);
+						strcpy(last, "success"); off += end;
+						if (off >= cut || iters > 10000) fin = 1;
+					} else if (e == json_tokener_continue) { strcpy(last, "continue"); fin = 1; if (o) printf("VALUE-WITH-ERROR"); }
+					else { snprintf(last, sizeof last, "%s@%zu", err_name(e), off + end); stop = 1; dead = 1; if (o) printf("VALUE-WITH-ERROR"); }
+				}
+				base = cut;
+				if (stop == 2 || cut >= n) break;
+			}
+			if (!anydoc) putchar('-');
+			printf(" final=%s", last);
+			free(data);
+			break; }
 		case 'R': json_tokener_reset(tok); dead = 0; printf("reset"); break;
 		case 'M': /* fail the k-th allocation from now on, during the next parse only */
 			xa_fail_at = xa_count + atol(tokp + 1); armed = 1; printf("armed"); break;
